@@ -859,7 +859,7 @@ func (kcp *KCP) flush(flushType FlushType) (nextUpdate uint32) {
 	}
 
 	newSegsCount := 0
-	for {
+	for flushType == IKCP_FLUSH_FULL { // an ack-only flush transmits no data, so it must not number any
 		if _itimediff(kcp.snd_nxt, kcp.snd_una+cwnd) >= 0 {
 			break
 		}
